@@ -6,6 +6,7 @@ package main
 import (
 	"go/ast"
 	"go/types"
+	"sort"
 	"strings"
 
 	"golang.org/x/tools/go/packages"
@@ -24,6 +25,133 @@ type runModel struct {
 	cfgLoop    *ast.RangeStmt // over <interface config>.Configs, inside ifaceLoop
 	fileLoop   *ast.RangeStmt // over fileMap
 	ifaceVar   types.Object   // range value of ifaceLoop
+
+	// the missing-map bookkeeping may live in functions of the package that Run calls once:
+	// their parameters (and receiver) are read as the expressions Run passes
+	bind     map[types.Object]ast.Expr
+	scope    []*ast.FuncDecl // Run and those callees
+	ctorMap  types.Object    // in the function whose result initialises missingMap: the local it returns
+	regFunc  *ast.FuncDecl   // function containing regLoop
+	regPkgOK bool            // regLoop ranges over the configured packages
+}
+
+func isMissingMapType(t types.Type) bool {
+	return t != nil && shortType(t.Underlying()) == "map[string]map[string]struct{}"
+}
+
+// resolve replaces an identifier that is a parameter/receiver of a once-called helper by the expression Run passes.
+func (m *runModel) resolve(e ast.Expr) ast.Expr {
+	for i := 0; i < 4; i++ {
+		id, ok := ast.Unparen(e).(*ast.Ident)
+		if !ok {
+			return e
+		}
+		b, ok := m.bind[m.info.Uses[id]]
+		if !ok {
+			return e
+		}
+		e = b
+	}
+	return e
+}
+
+func (m *runModel) isMissing(e ast.Expr) bool {
+	e = m.resolve(e)
+	return isObj(m.info, e, m.missingMap) || m.ctorMap != nil && isObj(m.info, e, m.ctorMap)
+}
+
+func (m *runModel) buildScope() {
+	m.bind = map[types.Object]ast.Expr{}
+	m.scope = []*ast.FuncDecl{m.fd}
+	funcs := pkgFuncs(m.p)
+	sites := map[*ast.FuncDecl][]*ast.CallExpr{}
+	ast.Inspect(m.fd.Body, func(n ast.Node) bool {
+		if call, ok := n.(*ast.CallExpr); ok {
+			if fn := calleeFunc(m.info, call); fn != nil && funcs[fn] != nil && funcs[fn] != m.fd {
+				sites[funcs[fn]] = append(sites[funcs[fn]], call)
+			}
+		}
+		return true
+	})
+	for fd, calls := range sites {
+		if len(calls) != 1 {
+			continue
+		}
+		// only helpers that touch the missing map: a parameter, receiver or result of that type
+		touches := false
+		fields := []*ast.FieldList{fd.Recv, fd.Type.Params, fd.Type.Results}
+		for _, fl := range fields {
+			if fl == nil {
+				continue
+			}
+			for _, f := range fl.List {
+				if isMissingMapType(m.info.TypeOf(f.Type)) {
+					touches = true
+				}
+			}
+		}
+		if !touches {
+			continue
+		}
+		call := calls[0]
+		m.scope = append(m.scope, fd)
+		if fd.Recv != nil && len(fd.Recv.List) == 1 && len(fd.Recv.List[0].Names) == 1 {
+			if sel, ok := call.Fun.(*ast.SelectorExpr); ok {
+				m.bind[m.info.Defs[fd.Recv.List[0].Names[0]]] = sel.X
+			}
+		}
+		i := 0
+		for _, f := range fd.Type.Params.List {
+			for _, n := range f.Names {
+				if i < len(call.Args) {
+					m.bind[m.info.Defs[n]] = call.Args[i]
+				}
+				i++
+			}
+		}
+		// constructor: missingMap is defined from this call
+		ast.Inspect(m.fd.Body, func(n ast.Node) bool {
+			as, ok := n.(*ast.AssignStmt)
+			if !ok || len(as.Rhs) != 1 || ast.Unparen(as.Rhs[0]) != ast.Expr(call) || len(as.Lhs) == 0 {
+				return true
+			}
+			if isObj(m.info, as.Lhs[0], m.missingMap) {
+				// the local of the map type that the helper returns
+				ast.Inspect(fd.Body, func(x ast.Node) bool {
+					if rs, ok := x.(*ast.ReturnStmt); ok && len(rs.Results) >= 1 {
+						if id, ok := ast.Unparen(rs.Results[0]).(*ast.Ident); ok && isMissingMapType(m.info.TypeOf(id)) {
+							m.ctorMap = m.info.Uses[id]
+						}
+					}
+					return true
+				})
+			}
+			return true
+		})
+	}
+	sort.Slice(m.scope[1:], func(i, j int) bool { return m.scope[1+i].Pos() < m.scope[1+j].Pos() })
+	// the registration loop: over the configured packages, in Run or in the constructor
+	if m.regLoop != nil {
+		m.regFunc, m.regPkgOK = m.fd, true
+		return
+	}
+	for _, fd := range m.scope[1:] {
+		ast.Inspect(fd.Body, func(n ast.Node) bool {
+			rs, ok := n.(*ast.RangeStmt)
+			if !ok || m.regLoop != nil {
+				return true
+			}
+			x := m.resolve(rs.X)
+			if x == rs.X {
+				return true
+			}
+			cx := m.fc.E(x)
+			if strings.Contains(cx, ".GetPackages<(config.RootConfig).GetPackages>(") && strings.HasSuffix(cx, "#0") && !strings.Contains(cx, "ParsePackages") {
+				m.regLoop, m.regFunc, m.regPkgOK = rs, fd, true
+			}
+			return true
+		})
+	}
 }
 
 func typeIs(t types.Type, s string) bool { return t != nil && shortType(t) == s }
@@ -40,7 +168,7 @@ func newRunModel(r *Repo) *runModel {
 		case *ast.Ident:
 			if obj := m.info.Defs[x]; obj != nil {
 				switch {
-				case typeIs(obj.Type(), "map[string]map[string]struct{}"):
+				case isMissingMapType(obj.Type()):
 					m.missingMap = obj
 				case typeIs(obj.Type(), "map[string]*internal/cmd.InterfaceCollection"):
 					m.fileMap = obj
@@ -50,7 +178,7 @@ func newRunModel(r *Repo) *runModel {
 			cx := m.fc.E(x.X)
 			t := m.info.TypeOf(x.X)
 			switch {
-			case strings.Contains(cx, ".GetPackages<(config.RootConfig).GetPackages>(") && strings.HasSuffix(cx, "#0") && !strings.Contains(cx, "ParsePackages"):
+			case typeIs(t, "[]string") && strings.Contains(cx, ".GetPackages<(config.RootConfig).GetPackages>(") && strings.HasSuffix(cx, "#0") && !strings.Contains(cx, "ParsePackages"):
 				if m.regLoop == nil {
 					m.regLoop = x
 				}
@@ -67,6 +195,7 @@ func newRunModel(r *Repo) *runModel {
 		}
 		return true
 	})
+	m.buildScope()
 	return m
 }
 
